@@ -340,6 +340,16 @@ Proof.
   rewrite dde_full. apply spec_eval_dpar_ext. intros p. symmetry. apply H. lia.
 Qed.
 
+(* with the proposed repair of C10-F5 every accepted vectorized model meets the specification, and exactly the models
+   with a non-uniform delay parameter are refused *)
+Theorem vec_checked_refines hist start par dpar n m md t y (uniform : bool) :
+  (uniform = true -> forall p u, (u < n)%nat -> dpar p u = dpar p 0%nat) ->
+  vimpl_eval_checked uniform hist start par dpar n m md t y =
+  if uniform then Some (vspec_eval hist start par dpar n m md t y) else None.
+Proof.
+  intros H. unfold vimpl_eval_checked. destruct uniform; [|reflexivity]. f_equal. apply vec_refines. now apply H.
+Qed.
+
 (* ---------- the Euler loop with DDEHistory is the method-of-steps recurrence ---------- *)
 Lemma spec_eval_ext h1 h2 pos par dpar m md t y : (forall s, h1 s = h2 s) ->
   spec_eval h1 pos par dpar m md t y = spec_eval h2 pos par dpar m md t y.
